@@ -120,7 +120,18 @@ Depth2 == {Not(Bin(o, AtomSeq[ij[1]], AtomSeq[ij[2]])) : o \in {"and", "or"}, ij
           \cup {Bin(o2, AtomSeq[c], Not(AtomSeq[i])) : o2 \in {"and", "or"}, c \in Outer, i \in 1..NA}
 Depth1U == {Not(AtomSeq[i]) : i \in 1..NA}
            \cup {Bin(o, AtomSeq[ij[1]], AtomSeq[ij[2]]) : o \in {"and", "or"}, ij \in Pairs}
-Preds  == Depth0 \cup Depth1U \cup Depth2
+\* constant predicates: tautologies (two of them are what validateWhereClause calls a "full table
+\* delete": the trimmed, upper-cased text is exactly 1=1 / TRUE), contradictions, a NULL-valued constant
+Const(val, form) == [k |-> "const", val |-> val, form |-> form]
+ConstSeq == << Const("T", "1=1"), Const("T", "TRUE"), Const("T", "1 = 1"),
+               Const("F", "FALSE"), Const("F", "1=0"), Const("N", "NULL = NULL") >>
+NConst == Len(ConstSeq)
+ConstPreds == {ConstSeq[i] : i \in 1..NConst} \cup {Not(ConstSeq[i]) : i \in 1..NConst}
+              \cup {Bin(o, ConstSeq[i], AtomSeq[j]) : o \in {"and", "or"}, i \in 1..NConst, j \in Outer}
+              \cup {Bin(o, AtomSeq[j], ConstSeq[i]) : o \in {"and", "or"}, i \in 1..NConst, j \in Outer}
+FullTable(q) == q.k = "const" /\ q.form \in {"1=1", "TRUE"}
+
+Preds  == Depth0 \cup Depth1U \cup Depth2 \cup ConstPreds
 
 -----------------------------------------------------------------------------
 \* Kleene evaluation: "T", "F", "N"
@@ -151,6 +162,7 @@ RECURSIVE Eval(_, _)
 Eval(q, r) == CASE q.k = "not" -> Not3(Eval(q.a, r))
                 [] q.k = "and" -> And3(Eval(q.a, r), Eval(q.b, r))
                 [] q.k = "or"  -> Or3(Eval(q.a, r), Eval(q.b, r))
+                [] q.k = "const" -> q.val
                 [] OTHER       -> EvalAtom(q, r)
 
 -----------------------------------------------------------------------------
@@ -158,18 +170,19 @@ VARIABLES p,        \* the predicate (AST)
           lay,      \* layout name
           tv,       \* truth vector: row id -> "T" | "F" | "N"
           store,    \* file -> set of row ids ({} = no such file)
-          pc,       \* "start" | "dry_done" | "rewrite" | "done"
+          pc,       \* "start" | "r1" | "r2" | "dry_done" | "rewrite" | "done"
+          reqs,     \* the requests answered so far: [dry, confirm, out, count]
           dry,      \* count reported by the dry run
           aff,      \* affected files still to rewrite
           deleted   \* count reported by the confirmed run
 
-vars == <<p, lay, tv, store, pc, dry, aff, deleted>>
+vars == <<p, lay, tv, store, pc, reqs, dry, aff, deleted>>
 
 Init == /\ p \in Preds
         /\ lay \in Layouts
         /\ tv = [i \in RowIds |-> Eval(p, Row(i))]
         /\ store = [f \in Files |-> Orig(lay, f)]
-        /\ pc = "start" /\ dry = 0 /\ aff = {} /\ deleted = 0
+        /\ pc = "start" /\ reqs = <<>> /\ dry = 0 /\ aff = {} /\ deleted = 0
 
 TrueIn(f)   == {i \in store[f] : tv[i] = "T"}
 Affected    == {f \in Files : TrueIn(f) # {}}
@@ -177,17 +190,42 @@ Kept(f)     == IF Keep = "not_p" THEN {i \in store[f] : tv[i] = "F"}    \* WHERE
                                  ELSE {i \in store[f] : tv[i] # "T"}    \* WHERE (p) IS NOT TRUE
 Sum3(g(_)) == Cardinality(g(1)) + Cardinality(g(2)) + Cardinality(g(3))     \* Files = 1..3
 
-DryRun ==
+\* request gates of handleDelete, in the order the code tests them:
+\*   full-table predicate without confirm        -> 400
+\*   neither dry_run nor confirm                  -> 400
+\*   dry_run (with or without confirm)            -> count only
+\*   confirm without dry_run                      -> rewrite
+Req(d, c, out, n) == [dry |-> d, confirm |-> c, out |-> out, count |-> n]
+
+\* dry_run = false, confirm = false
+RejectUnconfirmed ==
     /\ pc = "start"
+    /\ reqs' = Append(reqs, Req(FALSE, FALSE, "rejected", 0))
+    /\ pc' = "r1"
+    /\ UNCHANGED <<p, lay, tv, store, dry, aff, deleted>>
+
+\* dry_run = true, confirm = false
+DryRunPlain ==
+    /\ pc = "r1"
+    /\ reqs' = Append(reqs, IF FullTable(p) THEN Req(TRUE, FALSE, "rejected", 0)
+                                             ELSE Req(TRUE, FALSE, "dry", Sum3(TrueIn)))
+    /\ pc' = "r2"
+    /\ UNCHANGED <<p, lay, tv, store, dry, aff, deleted>>
+
+\* dry_run = true, confirm = true
+DryRun ==
+    /\ pc = "r2"
     /\ dry' = Sum3(TrueIn)
+    /\ reqs' = Append(reqs, Req(TRUE, TRUE, "dry", Sum3(TrueIn)))
     /\ pc' = "dry_done"
     /\ UNCHANGED <<p, lay, tv, store, aff, deleted>>
 
+\* dry_run = false, confirm = true: FindAffected, then one Rewrite* per affected file
 FindAffected ==
     /\ pc = "dry_done"
     /\ aff' = Affected
     /\ pc' = IF Affected = {} THEN "done" ELSE "rewrite"
-    /\ UNCHANGED <<p, lay, tv, store, dry, deleted>>
+    /\ UNCHANGED <<p, lay, tv, store, reqs, dry, deleted>>
 
 Cur == CHOOSE f \in aff : \A g \in aff : f <= g
 
@@ -196,7 +234,7 @@ RewriteStep ==
     /\ deleted' = deleted + (Cardinality(store[Cur]) - Cardinality(Kept(Cur)))
     /\ aff' = aff \ {Cur}
     /\ pc' = IF aff' = {} THEN "done" ELSE "rewrite"
-    /\ UNCHANGED <<p, lay, tv, dry>>
+    /\ UNCHANGED <<p, lay, tv, reqs, dry>>
 
 \* rowsAfter > 0: COPY ... WHERE (p) IS NOT TRUE to a temp file, rename over the original
 RewriteCopy   == pc = "rewrite" /\ aff # {} /\ Kept(Cur) # {} /\ RewriteStep
@@ -205,7 +243,7 @@ RewriteRemove == pc = "rewrite" /\ aff # {} /\ Kept(Cur) = {} /\ RewriteStep
 
 Done == pc = "done" /\ UNCHANGED vars
 
-Next == DryRun \/ FindAffected \/ RewriteCopy \/ RewriteRemove \/ Done
+Next == RejectUnconfirmed \/ DryRunPlain \/ DryRun \/ FindAffected \/ RewriteCopy \/ RewriteRemove \/ Done
 Spec == Init /\ [][Next]_vars
 
 -----------------------------------------------------------------------------
@@ -219,7 +257,8 @@ NTrue        == Cardinality({i \in RowIds : tv[i] = "T"})
 FalseRowsStay    == \A f \in Files : \A i \in Orig(lay, f) : tv[i] = "F" => i \in store[f]
 TrueRowsGone     == pc = "done" => \A f \in Files : \A i \in store[f] : tv[i] # "T"
 CountIsDisappear == pc = "done" => deleted = Disappeared
-DryRunInert      == pc = "dry_done" => (store = [f \in Files |-> Orig(lay, f)] /\ dry = NTrue)
+DryRunInert      == /\ pc \in {"start", "r1", "r2", "dry_done"} => store = [f \in Files |-> Orig(lay, f)]
+                    /\ pc = "dry_done" => dry = NTrue
 UntouchedFiles   == \A f \in Files : (\A i \in Orig(lay, f) : tv[i] # "T") => store[f] = Orig(lay, f)
 NothingInvented  == \A f \in Files : store[f] \subseteq Orig(lay, f)
 ImplSafe == FalseRowsStay /\ TrueRowsGone /\ CountIsDisappear /\ DryRunInert /\ UntouchedFiles /\ NothingInvented
@@ -232,6 +271,7 @@ AsWritten == pc = "done" => \A f \in Files : \A i \in Orig(lay, f) :
 PropExact == pc = "done" => /\ \A f \in Files : store[f] = Expected(f)
                             /\ deleted = NTrue
                             /\ dry = deleted
+                            /\ \A i \in 1..Len(reqs) : reqs[i].out = "dry" => reqs[i].count = deleted
 
 \* generation
 ClassOf(f) == [T |-> Cardinality({i \in Orig(lay, f) : tv[i] = "T"}),
@@ -251,5 +291,6 @@ EmitInv ==
                                   expected |-> [f \in Files |-> Expected(f)],
                                   impl |-> [f \in Files |-> store[f]],
                                   impl_deleted |-> deleted, impl_dry |-> dry,
-                                  expected_count |-> NTrue])>>)
+                                  expected_count |-> NTrue, reqs |-> reqs,
+                                  full_table |-> FullTable(p), has_const |-> (p \in ConstPreds)])>>)
 =============================================================================
